@@ -20,8 +20,30 @@ static void record (long call, int kind, int delta, unsigned result) {
 	int i = (int) vrt_sh_add (NOPS, 1) - 1;
 	if (i < 64) { ops[i].call = call; ops[i].ret = vrt_steps (); ops[i].kind = kind; ops[i].delta = delta; ops[i].result = result; ops[i].tid = vrt_self (); }
 }
-static void do_add (int d) { long t = vrt_steps (); unsigned r = nsync_counter_add (c, d); record (t, 0, d, r); vrt_count ("add"); }
-static void do_value (void) { long t = vrt_steps (); unsigned r = nsync_counter_value (c); record (t, 1, 0, r); }
+/* the notes announce every call and its result to the lock-step replayer (replay/counter_replay.ml) */
+static unsigned noted_value (void) {
+	unsigned r;
+	vrt_note ("call %d value", vrt_self ());
+	r = nsync_counter_value (c);
+	vrt_note ("ret %d %u", vrt_self (), r);
+	return r;
+}
+static unsigned noted_wait (nsync_time dl) {
+	unsigned r;
+	if (nsync_time_cmp (dl, nsync_time_no_deadline) == 0) vrt_note ("call %d wait none", vrt_self ());
+	else vrt_note ("call %d wait %lld", vrt_self (), (long long) ts_ns (dl));
+	r = nsync_counter_wait (c, dl);
+	vrt_note ("ret %d %u", vrt_self (), r);
+	return r;
+}
+static void do_add (int d) {
+	long t = vrt_steps (); unsigned r;
+	vrt_note ("call %d add %d", vrt_self (), d);
+	r = nsync_counter_add (c, d);
+	vrt_note ("ret %d %u", vrt_self (), r);
+	record (t, 0, d, r); vrt_count ("add");
+}
+static void do_value (void) { long t = vrt_steps (); unsigned r = noted_value (); record (t, 1, 0, r); }
 
 static void decrementer (void *a) {
 	if (vrt_rand (3) == 0) { do_add (1); do_add (-1); }   /* legal: our own decrement is still outstanding, the value is >= 1 */
@@ -35,7 +57,7 @@ static void waiter_thr (void *a) {
 	long t = vrt_steps ();
 	unsigned r;
 	if (timed) dl = vrt_abs ((int64_t) vrt_rand (5) * 800 - 800);
-	r = nsync_counter_wait (c, dl);
+	r = noted_wait (dl);
 	if (r == 0) { record (t, 2, 0, 0); vrt_count ("wait_zero"); }
 	else {
 		vrt_count ("wait_timeout");
@@ -47,9 +69,9 @@ static void waiter_thr (void *a) {
 static void late_waiter (void *a) {
 	/* waits until the counter is known to be zero, then a fresh wait must return 0 without blocking */
 	long before;
-	while (nsync_counter_value (c) != 0) vrt_yield ();
+	while (noted_value () != 0) vrt_yield ();
 	before = vrt_sleeps_of (vrt_self ());
-	if (nsync_counter_wait (c, nsync_time_no_deadline) != 0) vrt_fail ("C10", "wait after zero returned non-zero");
+	if (noted_wait (nsync_time_no_deadline) != 0) vrt_fail ("C10", "wait after zero returned non-zero");
 	if (vrt_sleeps_of (vrt_self ()) != before) vrt_fail ("C10", "a wait that started after the counter reached zero blocked");
 }
 
@@ -91,7 +113,7 @@ int main (void) {
 			ops[i].kind == 0 ? "add" : ops[i].kind == 1 ? "value" : "wait0", ops[i].delta, ops[i].result, ops[i].call, ops[i].ret);
 		vrt_fail ("C10", "returned values are not linearizable against an integer starting at %d:%s", initial, buf);
 	}
-	if (nsync_counter_value (c) != 0) vrt_fail ("C10", "final value %u", nsync_counter_value (c));
+	{ unsigned fin = noted_value (); if (fin != 0) vrt_fail ("C10", "final value %u", fin); }
 	printf ("VRT-END ok\n");
 	return 0;
 }
